@@ -598,9 +598,10 @@ public:
     return *this;
   }
 
+  // Return true if e belongs to the set
   bool at(const element_t &e) const{
     dual_set_domain_t s(e);
-    return (s <= *this);
+    return (*this <= s);
   }
   
   std::size_t size() { return m_set.size(); }
